@@ -211,8 +211,13 @@ def shard_cases(arg):
     for seq in seqs:
         N = len(seq) + 1
         ns = [-1] + list(range(3, N + 1))
-        gens = range(len(GENS)) if thorough else [
-            (sum(seq) + seq[0]) % len(GENS)]
+        if thorough and N <= 5:
+            gens = range(len(GENS))
+        elif thorough:
+            gens = sorted({(sum(seq) + seq[0] + j * 2) % len(GENS)
+                           for j in range(3)})
+        else:
+            gens = [(sum(seq) + seq[0]) % len(GENS)]
         for gen in gens:
             for noise in ("none", "one", "unrelated"):
                 for mode in MODES:
@@ -434,7 +439,7 @@ def run(ctx):
         "6 alignment option combinations x n_to_align {-1,3}, and the same "
         "through evo_ape/evo_rpe --save_results. non-trivial = noisy / "
         "unrelated data or strictly improved RMSE" %
-        (ctx.pick(5, 6), "all 5" if ctx.thorough else "1 of 5 (cycled)"))
+        (ctx.pick(5, 6), "all 7 (3 of 7 for 6 poses)" if ctx.thorough else "1 of 7 (cycled)"))
     return acc
 
 
